@@ -1,0 +1,410 @@
+//go:build verif
+
+package sdf
+
+// Read-only reification of SDF2/SDF3 values for the C01 per-object certificates: a type switch
+// over the shapes of this package that reads the private fields, recovers the constructor
+// arguments the fields were computed from, identifies blend / extrusion closures by probing them
+// at fixed arguments, and returns an expression tree.  Shapes it does not know become opaque
+// leaves that carry only their bounding box.  Nothing here changes behaviour.
+
+import (
+	"math"
+	"reflect"
+
+	v2 "github.com/deadsy/sdfx/vec/v2"
+	v3 "github.com/deadsy/sdfx/vec/v3"
+)
+
+// VerifBlend identifies a MinFunc / MaxFunc: Kind is "def" (math.Min / math.Max), "poly",
+// "round", "chamfer" or "other"; K is the recovered parameter; Exact tells whether K reproduces
+// the closure bit for bit on the probe arguments.
+type VerifBlend struct {
+	Kind  string
+	K     float64
+	Exact bool
+}
+
+// VerifShape is one node of a reified shape.  Kind names the constructor ("Sphere", "Box3D",
+// "Transform3", ..., "Mesh2", "Cache2", "Opaque2", "Opaque3"); F and N hold the recovered
+// constructor arguments in the order of the public constructor (matrices row major); Exact is
+// false when an argument had to be recomputed with rounding (an inverted matrix, a re-added
+// rounding radius, a probed closure).  Shared sub-shapes are shared nodes (same ID).
+type VerifShape struct {
+	ID     int
+	Kind   string
+	GoType string
+	Dim    int
+	F      []float64
+	N      []int
+	Min    VerifBlend
+	Max    VerifBlend
+	Segs   []Line2 // Mesh2: the clipped line segments held by the quadtree leaves
+	Kids   []*VerifShape
+	Exact  bool
+	Box2   Box2   // the stored bounding box (Dim == 2)
+	Box3   Box3   // the stored bounding box (Dim == 3)
+	Why    string // Opaque: why the shape was not opened
+}
+
+type verifDumper struct {
+	seen map[uintptr]*VerifShape
+	next int
+}
+
+// VerifDumpTree3 reifies an SDF3.
+func VerifDumpTree3(s SDF3) *VerifShape {
+	d := &verifDumper{seen: map[uintptr]*VerifShape{}}
+	return d.dump3(s)
+}
+
+// VerifDumpTree2 reifies an SDF2.
+func VerifDumpTree2(s SDF2) *VerifShape {
+	d := &verifDumper{seen: map[uintptr]*VerifShape{}}
+	return d.dump2(s)
+}
+
+func verifPtr(x interface{}) uintptr {
+	v := reflect.ValueOf(x)
+	if v.Kind() == reflect.Ptr {
+		return v.Pointer()
+	}
+	return 0
+}
+
+func (d *verifDumper) node(x interface{}, dim int) (*VerifShape, bool) {
+	p := verifPtr(x)
+	if p != 0 {
+		if n, ok := d.seen[p]; ok && n.Dim == dim && n.GoType == reflect.TypeOf(x).String() {
+			return n, true
+		}
+	}
+	d.next++
+	n := &VerifShape{ID: d.next, Dim: dim, GoType: reflect.TypeOf(x).String(), Exact: true}
+	if p != 0 {
+		d.seen[p] = n
+	}
+	return n, false
+}
+
+var verifProbes = [][2]float64{{0, 0}, {1, 1}, {-2, 3}, {3, -2}, {0.5, 0.625}, {-0.25, -0.375}, {0.001, 0}, {7, 7.5}, {-1, -1}, {0.1, 0.3}}
+
+func verifSameFn(f, g func(a, b float64) float64, tol float64) bool {
+	for _, q := range verifProbes {
+		x, y := f(q[0], q[1]), g(q[0], q[1])
+		if x == y || (math.IsNaN(x) && math.IsNaN(y)) {
+			continue
+		}
+		if tol > 0 && math.Abs(x-y) <= tol*(1+math.Abs(x)) {
+			continue
+		}
+		return false
+	}
+	return true
+}
+
+func verifMinBlend(f MinFunc) VerifBlend {
+	if f == nil {
+		return VerifBlend{Kind: "other"}
+	}
+	if verifSameFn(f, math.Min, 0) {
+		return VerifBlend{Kind: "def", Exact: true}
+	}
+	f0 := f(0, 0)
+	type cand struct {
+		kind string
+		k    float64
+		mk   func(float64) MinFunc
+	}
+	for _, c := range []cand{
+		{"poly", -4 * f0, PolyMin},
+		{"round", f0 / (1 - math.Sqrt2), RoundMin},
+		{"chamfer", -f0 / sqrtHalf, ChamferMin},
+	} {
+		if !(c.k > 0) || math.IsInf(c.k, 0) {
+			continue
+		}
+		g := c.mk(c.k)
+		if verifSameFn(f, g, 0) {
+			return VerifBlend{Kind: c.kind, K: c.k, Exact: true}
+		}
+		if verifSameFn(f, g, 1e-12) {
+			return VerifBlend{Kind: c.kind, K: c.k}
+		}
+	}
+	return VerifBlend{Kind: "other"}
+}
+
+func verifMaxBlend(f MaxFunc) VerifBlend {
+	if f == nil {
+		return VerifBlend{Kind: "other"}
+	}
+	if verifSameFn(f, math.Max, 0) {
+		return VerifBlend{Kind: "def", Exact: true}
+	}
+	k := 4 * f(0, 0)
+	if k > 0 && !math.IsInf(k, 0) {
+		g := PolyMax(k)
+		if verifSameFn(f, g, 0) {
+			return VerifBlend{Kind: "poly", K: k, Exact: true}
+		}
+		if verifSameFn(f, g, 1e-12) {
+			return VerifBlend{Kind: "poly", K: k}
+		}
+	}
+	return VerifBlend{Kind: "other"}
+}
+
+var verifExProbes = []v3.Vec{{1, 0, 0}, {0, 1, 0}, {1, 1, 0}, {1, 0, 0.25}, {0, 1, -0.25}, {0.5, -0.75, 0.125}, {-2, 3, 0.0625}, {1, 1, -0.125}}
+
+func verifSameEx(f, g ExtrudeFunc, tol float64) bool {
+	for _, p := range verifExProbes {
+		a, b := f(p), g(p)
+		if a == b {
+			continue
+		}
+		if tol > 0 && math.Abs(a.X-b.X) <= tol && math.Abs(a.Y-b.Y) <= tol {
+			continue
+		}
+		return false
+	}
+	return true
+}
+
+// verifExtrude recovers the extrusion map: kind "Extrude" | "TwistExtrude" | "ScaleExtrude" |
+// "ScaleTwistExtrude" with (twist, scale), or "" when the closure is none of the four.
+func verifExtrude(f ExtrudeFunc, height float64) (kind string, twist float64, scale v2.Vec, exact bool) {
+	if f == nil {
+		return "", 0, v2.Vec{}, false
+	}
+	if verifSameEx(f, NormalExtrude, 0) {
+		return "Extrude", 0, v2.Vec{X: 1, Y: 1}, true
+	}
+	if !(height > 0) {
+		return "", 0, v2.Vec{}, false
+	}
+	// at z = 0 there is no rotation: (1,1,0) -> b = inv/2 + 1/2
+	b := f(v3.Vec{X: 1, Y: 1, Z: 0})
+	inv := v2.Vec{X: 2*b.X - 1, Y: 2*b.Y - 1}
+	scale = v2.Vec{X: 1 / inv.X, Y: 1 / inv.Y}
+	// the rotation angle at a small height: (1,0,z) -> rot(z k) (s, 0)
+	z := height / 64
+	q := f(v3.Vec{X: 1, Y: 0, Z: z})
+	k := math.Atan2(q.Y, q.X) / z
+	twist = k * height
+	type cand struct {
+		kind string
+		g    ExtrudeFunc
+	}
+	for _, c := range []cand{
+		{"TwistExtrude", TwistExtrude(height, twist)},
+		{"ScaleExtrude", ScaleExtrude(height, scale)},
+		{"ScaleTwistExtrude", ScaleTwistExtrude(height, twist, scale)},
+	} {
+		if verifSameEx(f, c.g, 0) {
+			return c.kind, twist, scale, true
+		}
+		if verifSameEx(f, c.g, 1e-9) {
+			return c.kind, twist, scale, false
+		}
+	}
+	return "", 0, v2.Vec{}, false
+}
+
+func verifQtPieces(n *qtNode, out []Line2) []Line2 {
+	if n == nil {
+		return out
+	}
+	for _, li := range n.leaf {
+		out = append(out, *li.line)
+	}
+	for i := range n.child {
+		out = verifQtPieces(n.child[i], out)
+	}
+	return out
+}
+
+func (d *verifDumper) opaque2(n *VerifShape, why string) *VerifShape {
+	n.Kind, n.Why, n.Kids = "Opaque2", why, nil
+	return n
+}
+
+func (d *verifDumper) opaque3(n *VerifShape, why string) *VerifShape {
+	n.Kind, n.Why, n.Kids = "Opaque3", why, nil
+	return n
+}
+
+func (d *verifDumper) dump2(s SDF2) *VerifShape {
+	if s == nil {
+		return nil
+	}
+	n, old := d.node(s, 2)
+	if old {
+		return n
+	}
+	n.Box2 = s.BoundingBox()
+	switch x := s.(type) {
+	case *CircleSDF2:
+		n.Kind, n.F = "Circle", []float64{x.radius}
+	case *BoxSDF2:
+		// size = arg/2 - round, bb.Max = arg/2
+		n.Kind, n.F = "Box2D", []float64{2 * x.bb.Max.X, 2 * x.bb.Max.Y, x.round}
+	case *LineSDF2:
+		n.Kind, n.F = "Line2D", []float64{2 * x.l, x.round}
+	case *OffsetSDF2:
+		n.Kind, n.F, n.Kids = "Offset2", []float64{x.offset}, []*VerifShape{d.dump2(x.sdf)}
+	case *IntersectionSDF2:
+		n.Kind, n.Max, n.Kids = "Intersect2", verifMaxBlend(x.max), []*VerifShape{d.dump2(x.s0), d.dump2(x.s1)}
+	case *DifferenceSDF2:
+		n.Kind, n.Max, n.Kids = "Difference2", verifMaxBlend(x.max), []*VerifShape{d.dump2(x.s0), d.dump2(x.s1)}
+	case *CutSDF2:
+		// n = (-v.Y, v.X) for the normalised direction v
+		n.Kind, n.F, n.Kids = "Cut2", []float64{x.a.X, x.a.Y, x.n.Y, -x.n.X}, []*VerifShape{d.dump2(x.sdf)}
+		n.Exact = false
+	case *TransformSDF2:
+		m := x.mInv.Inverse()
+		n.Kind, n.F, n.Kids = "Transform2", m[:], []*VerifShape{d.dump2(x.sdf)}
+		n.Exact = m.Inverse() == x.mInv
+	case *ScaleUniformSDF2:
+		n.Kind, n.F, n.Kids = "ScaleUniform2", []float64{x.k}, []*VerifShape{d.dump2(x.sdf)}
+	case *ArraySDF2:
+		n.Kind, n.N, n.F, n.Min, n.Kids = "Array2", []int{x.num.X, x.num.Y}, []float64{x.step.X, x.step.Y}, verifMinBlend(x.min), []*VerifShape{d.dump2(x.sdf)}
+	case *RotateUnionSDF2:
+		m := x.step.Inverse()
+		n.Kind, n.N, n.F, n.Min, n.Kids = "RotateUnion2", []int{x.num}, m[:], verifMinBlend(x.min), []*VerifShape{d.dump2(x.sdf)}
+		n.Exact = m.Inverse() == x.step
+	case *RotateCopySDF2:
+		num := int(math.Round(Tau / x.theta))
+		if num <= 0 || Tau/float64(num) != x.theta {
+			return d.opaque2(n, "RotateCopy2D: copy count not recoverable from theta")
+		}
+		n.Kind, n.N, n.Kids = "RotateCopy2", []int{num}, []*VerifShape{d.dump2(x.sdf)}
+	case *ElongateSDF2:
+		n.Kind, n.F, n.Kids = "Elongate2", []float64{2 * x.hp.X, 2 * x.hp.Y}, []*VerifShape{d.dump2(x.sdf)}
+	case *UnionSDF2:
+		n.Kind, n.Min = "Union2", verifMinBlend(x.min)
+		for _, k := range x.sdf {
+			n.Kids = append(n.Kids, d.dump2(k))
+		}
+	case *CacheSDF2:
+		n.Kind, n.Kids = "Cache2", []*VerifShape{d.dump2(x.sdf)}
+	case *MeshSDF2:
+		n.Kind, n.Segs = "Mesh2", verifQtPieces(x.qt, nil)
+	default:
+		return d.opaque2(n, "no model of "+n.GoType)
+	}
+	if n.Min.Kind == "other" || n.Max.Kind == "other" {
+		return d.opaque2(n, "blend function not identified")
+	}
+	if n.Min.Kind != "" && !n.Min.Exact || n.Max.Kind != "" && !n.Max.Exact {
+		n.Exact = false
+	}
+	for _, k := range n.Kids {
+		if k == nil {
+			return d.opaque2(n, "nil operand")
+		}
+	}
+	return n
+}
+
+func (d *verifDumper) dump3(s SDF3) *VerifShape {
+	if s == nil {
+		return nil
+	}
+	n, old := d.node(s, 3)
+	if old {
+		return n
+	}
+	n.Box3 = s.BoundingBox()
+	switch x := s.(type) {
+	case *SphereSDF3:
+		n.Kind, n.F = "Sphere", []float64{x.radius}
+	case *BoxSDF3:
+		n.Kind, n.F = "Box3D", []float64{2 * x.bb.Max.X, 2 * x.bb.Max.Y, 2 * x.bb.Max.Z, x.round}
+	case *CylinderSDF3:
+		// bb.Max = (radius, radius, height/2)
+		n.Kind, n.F = "Cylinder", []float64{2 * x.bb.Max.Z, x.bb.Max.X, x.round}
+	case *ConeSDF3:
+		h := 2 * x.bb.Max.Z
+		r0, r1 := x.r0, x.r1
+		if x.round != 0 {
+			ofs := x.round / x.n.X
+			r0, r1 = x.r0+(1+x.n.Y)*ofs, x.r1+(1-x.n.Y)*ofs
+			n.Exact = false
+		}
+		n.Kind, n.F = "Cone", []float64{h, r0, r1, x.round}
+	case *SorSDF3:
+		n.Kind, n.F, n.Kids = "Revolve", []float64{x.theta}, []*VerifShape{d.dump2(x.sdf)}
+	case *ExtrudeSDF3:
+		h := 2 * x.height
+		kind, twist, scale, exact := verifExtrude(x.extrude, h)
+		switch kind {
+		case "Extrude":
+			n.F = []float64{h}
+		case "TwistExtrude":
+			n.F = []float64{h, twist}
+		case "ScaleExtrude":
+			n.F = []float64{h, scale.X, scale.Y}
+		case "ScaleTwistExtrude":
+			n.F = []float64{h, twist, scale.X, scale.Y}
+		default:
+			return d.opaque3(n, "extrusion function not identified")
+		}
+		n.Kind, n.Exact, n.Kids = kind, exact, []*VerifShape{d.dump2(x.sdf)}
+	case *ExtrudeRoundedSDF3:
+		n.Kind, n.F, n.Kids = "ExtrudeRounded", []float64{2 * (x.height + x.round), x.round}, []*VerifShape{d.dump2(x.sdf)}
+		n.Exact = false
+	case *LoftSDF3:
+		n.Kind, n.F, n.Kids = "Loft", []float64{2 * (x.height + x.round), x.round}, []*VerifShape{d.dump2(x.sdf0), d.dump2(x.sdf1)}
+		n.Exact = x.round == 0
+	case *TransformSDF3:
+		n.Kind, n.F, n.Kids = "Transform3", x.matrix[:], []*VerifShape{d.dump3(x.sdf)}
+	case *ScaleUniformSDF3:
+		n.Kind, n.F, n.Kids = "ScaleUniform3", []float64{x.k}, []*VerifShape{d.dump3(x.sdf)}
+	case *UnionSDF3:
+		n.Kind, n.Min = "Union3", verifMinBlend(x.min)
+		for _, k := range x.sdf {
+			n.Kids = append(n.Kids, d.dump3(k))
+		}
+	case *DifferenceSDF3:
+		n.Kind, n.Max, n.Kids = "Difference3", verifMaxBlend(x.max), []*VerifShape{d.dump3(x.s0), d.dump3(x.s1)}
+	case *IntersectionSDF3:
+		n.Kind, n.Max, n.Kids = "Intersect3", verifMaxBlend(x.max), []*VerifShape{d.dump3(x.s0), d.dump3(x.s1)}
+	case *CutSDF3:
+		// the stored normal is -normalize(n)
+		n.Kind, n.F, n.Kids = "Cut3", []float64{x.a.X, x.a.Y, x.a.Z, -x.n.X, -x.n.Y, -x.n.Z}, []*VerifShape{d.dump3(x.sdf)}
+		n.Exact = false
+	case *ElongateSDF3:
+		n.Kind, n.F, n.Kids = "Elongate3", []float64{2 * x.hp.X, 2 * x.hp.Y, 2 * x.hp.Z}, []*VerifShape{d.dump3(x.sdf)}
+	case *ArraySDF3:
+		n.Kind, n.N, n.F, n.Min, n.Kids = "Array3", []int{x.num.X, x.num.Y, x.num.Z}, []float64{x.step.X, x.step.Y, x.step.Z}, verifMinBlend(x.min), []*VerifShape{d.dump3(x.sdf)}
+	case *RotateUnionSDF3:
+		m := x.step.Inverse()
+		n.Kind, n.N, n.F, n.Min, n.Kids = "RotateUnion3", []int{x.num}, m[:], verifMinBlend(x.min), []*VerifShape{d.dump3(x.sdf)}
+		n.Exact = m.Inverse() == x.step
+	case *RotateCopySDF3:
+		num := int(math.Round(Tau / x.theta))
+		if num <= 0 || Tau/float64(num) != x.theta {
+			return d.opaque3(n, "RotateCopy3D: copy count not recoverable from theta")
+		}
+		n.Kind, n.N, n.Kids = "RotateCopy3", []int{num}, []*VerifShape{d.dump3(x.sdf)}
+	case *OffsetSDF3:
+		n.Kind, n.F, n.Kids = "Offset3", []float64{x.offset}, []*VerifShape{d.dump3(x.sdf)}
+	case *ShellSDF3:
+		n.Kind, n.F, n.Kids = "Shell3", []float64{2 * x.delta}, []*VerifShape{d.dump3(x.sdf)}
+	default:
+		return d.opaque3(n, "no model of "+n.GoType)
+	}
+	if n.Min.Kind == "other" || n.Max.Kind == "other" {
+		return d.opaque3(n, "blend function not identified")
+	}
+	if n.Min.Kind != "" && !n.Min.Exact || n.Max.Kind != "" && !n.Max.Exact {
+		n.Exact = false
+	}
+	for _, k := range n.Kids {
+		if k == nil {
+			return d.opaque3(n, "nil operand")
+		}
+	}
+	return n
+}
